@@ -283,7 +283,29 @@ static int layout_ok(var e, var cont, long acode) {
 static int is_deleting(const char* op) { return !strncmp(op, "del", 3) || !strncmp(op, "dealloc", 7); }
 
 /* ------------------------------------------------------------------ one operation */
-static void do_op(const char* op, var e, var T) {
+/* a raw heap String of exactly n characters */
+static var mkstr(size_t n) {
+  char* b = malloc(n + 1);
+  for (size_t i = 0; i < n; i++) b[i] = (char)('a' + i % 23);
+  b[n] = 0;
+  var r = new_raw(String, $S(b));
+  free(b);
+  return r;
+}
+
+/* size of the argument relative to the current value: e(mpty) s(horter) q (equal) l(onger) */
+static size_t sized(char cls, size_t cur) {
+  switch (cls) {
+    case 'e': return 0;
+    case 's': return cur > 1 ? cur / 2 : 0;
+    case 'q': return cur;
+    default:  return cur + 17;
+  }
+}
+
+/* cls = 0: the fixed arguments of the basic matrix; otherwise the size class of the argument (String: length of
+   the text / new size; Tuple: number of members / new size; push_at, pop_at, rem: l = at the last position) */
+static void do_op(const char* op, char cls, var e, var T) {
   if (!strcmp(op, "del")) del(e);
   else if (!strcmp(op, "del_raw")) del_raw(e);
   else if (!strcmp(op, "del_root")) del_root(e);
@@ -295,6 +317,38 @@ static void do_op(const char* op, var e, var T) {
 #ifndef CELLO_NGC
     GC_Sweep(current(GC));
 #endif
+  }
+  else if (!strcmp(op, "del_stopped")) {
+#ifndef CELLO_NGC
+    stop(current(GC));
+    var caught = NULL;
+    try { del(e); } catch (ex) { caught = ex; }
+    start(current(GC));
+    if (caught) throw(caught, "del raised while the collector was stopped");
+#endif
+  }
+  else if (T is String && cls) {
+    size_t cur = strlen(c_str(e));
+    size_t n = sized(cls, cur);
+    if (!strcmp(op, "assign")) assign(e, mkstr(n));
+    else if (!strcmp(op, "resize")) resize(e, n);
+    else if (!strcmp(op, "concat")) concat(e, mkstr(n));
+    else if (!strcmp(op, "append")) append(e, mkstr(n));
+    else if (!strcmp(op, "print_to")) print_to(e, 0, "%s", mkstr(n));
+  } else if (T is Tuple && cls) {
+    static var pool[64];
+    size_t cur = len(e);
+    size_t n = sized(cls, cur);
+    if (n > 60) n = 60;
+    for (size_t i = 0; i < n; i++) pool[i] = new_raw(Int, $I((int64_t)(500 + i)));     /* distinct pointers (finding F3) */
+    pool[n] = Terminal;
+    var arg = $(Tuple, pool);
+    if (!strcmp(op, "assign")) assign(e, arg);
+    else if (!strcmp(op, "concat")) concat(e, arg);
+    else if (!strcmp(op, "resize")) resize(e, n);
+    else if (!strcmp(op, "push_at")) push_at(e, P_I8, $I(-1));
+    else if (!strcmp(op, "pop_at")) pop_at(e, $I(-1));
+    else if (!strcmp(op, "rem")) rem(e, get(e, $I(-1)));
   }
   else if (T is String) {
     if (!strcmp(op, "assign")) assign(e, $S("a replacement that is considerably longer than the original text"));
@@ -318,14 +372,14 @@ static void do_op(const char* op, var e, var T) {
 static int op_applicable(const char* op, var T) {
   static const char* s_ops[] = {"assign", "resize", "concat", "append", "print_to", NULL};
   static const char* t_ops[] = {"assign", "resize", "concat", "append", "push", "pop", "push_at", "pop_at", "rem", NULL};
-  if (is_deleting(op) || !strcmp(op, "destruct")) return 1;
-  if (!strcmp(op, "sweep")) {
+  if (!strcmp(op, "sweep") || !strcmp(op, "del_stopped")) {
 #ifdef CELLO_NGC
     return 0;
 #else
     return 1;
 #endif
   }
+  if (is_deleting(op) || !strcmp(op, "destruct")) return 1;
   const char** l = (T is String) ? s_ops : (T is Tuple) ? t_ops : NULL;
   if (!l) return 0;
   for (; *l; l++) if (!strcmp(*l, op)) return 1;
@@ -403,7 +457,8 @@ static void run_case(char* line) {
   /* stack forms, all evaluated at function scope */
   var st_int = $I(42);
   var st_float = $F(2.5);
-  var st_str = $S("a string literal on the stack");
+  char st_chars[] = "a string in a writable array on the stack";     /* not heap, but writable: a skipped guard shows as a change, not as SIGSEGV */
+  var st_str = $S(st_chars);
   var st_ref = $R(P_I1);
   var st_tuple = tuple(P_I1, P_I2, P_I3);
   var st_func = $(Function, f_ident);
@@ -509,12 +564,15 @@ static void run_case(char* line) {
   char* ops = f_ops;
   char* op;
   while ((op = next_tok(&ops, ',')) != NULL) {
+    char cls = 0;
+    char* at = strchr(op, '@');
+    if (at) { *at = 0; cls = at[1]; }
     if (!op_applicable(op, et)) { P(" | n/a fo=0 ro=0 fb=0 rb=0 i=%d--", head_same(e)); continue; }
     fo = ro = fb = rb = 0;
     exn = NULL;
     snapshot(e);
     armed = 1;
-    try { do_op(op, e, et); } catch (ex) { exn = ex; }
+    try { do_op(op, cls, e, et); } catch (ex) { exn = ex; }
     armed = 0;
     /* body and buffer are compared with their state before this step when nothing was released in it
        and the step is one that must not change anything (a refusal, a deleting entry point, a sweep) */
